@@ -63,6 +63,7 @@ type HarnessResult struct {
 	Nodes     int            `json:"term_nodes"`
 	Nondets   []string       `json:"nondet_inputs"`
 	LoopBound int            `json:"loop_bound"`
+	Folded    map[string]int `json:"asserts_decided_by_simplifier"`
 }
 
 // overlayFor maps harness files of /verif/harness/<rel>/ into /repo/<rel>/.
@@ -176,12 +177,25 @@ func runHarness(spec *HarnessSpec) (res *HarnessResult) {
 		e.oblige("reach", "harness end reachable", tTrue, fn.Pos(), fn.String())
 	}()
 	res.ExecS = time.Since(t1).Seconds()
+	if os.Getenv("GOSMT_VERBOSE") != "" {
+		hist := map[string]int{}
+		for _, ob := range e.obligations {
+			hist[ob.Kind+": "+ob.Label+" @"+ob.Pos]++
+		}
+		for k, v := range hist {
+			if v > 20 {
+				fmt.Fprintf(os.Stderr, "[obligations] %d x %s\n", v, k)
+			}
+		}
+		fmt.Fprintf(os.Stderr, "[encode] %.1fs load %.1fs obligations=%d assumptions=%d steps=%d status=%s %s\n", res.ExecS, res.LoadS, len(e.obligations), len(e.assumptions), e.steps, res.Status, res.Error)
+	}
 	res.Functions, res.Stubs, res.Unwind = e.callLog, e.stubLog, e.maxUnwind
 	for n := range e.notes {
 		res.Notes = append(res.Notes, n)
 	}
 	sort.Strings(res.Notes)
 	res.NAssume = len(e.assumptions)
+	res.Folded = e.folded
 	res.Steps = e.steps
 	for _, nd := range e.nondets {
 		res.Nondets = append(res.Nondets, nd.Name)
@@ -231,74 +245,130 @@ func (e *Engine) solve(res *HarnessResult) {
 	var mu sync.Mutex
 	totalT := time.Duration(0)
 	totalQ := 0
-	// Every query is a self-contained script after (reset): z3 then uses its
-	// tactic-based solver (bit-blasting) instead of the slower incremental core.
-	type worker struct{ s *Solver }
+	isCVC := strings.HasPrefix(solverName, "cvc5")
+	// A worker owns one solver process with a persistent context: term
+	// definitions and the assumption prefix are sent once and only grow;
+	// each obligation is push / assert / check / pop.  z3 is asked through
+	// (check-sat-using qfaufbv) so that it bit-blasts instead of using its
+	// slower incremental core (measured: 2-5 s vs > 20 s on the PDEP lemma).
+	type sctx struct {
+		s         *Solver
+		pr        *Printer
+		nAsserted int
+	}
+	type worker struct{ c [2]sctx } // 0: real assumptions only, 1: full prefix
 	pool := make(chan *worker, par)
 	for i := 0; i < par; i++ {
 		pool <- &worker{}
 	}
-	query := func(nassume int, cond *Term) (string, map[string]string, float64) {
-		w := <-pool
-		defer func() { pool <- w }()
-		t0 := time.Now()
-		if w.s == nil || w.s.dead {
-			w.s, _, _ = start()
-		}
-		s := w.s
-		pr := NewPrinter()
-		var sb strings.Builder
-		sb.WriteString("(reset)\n")
-		if strings.HasPrefix(solverName, "cvc5") {
-			sb.WriteString("(set-logic ALL)\n")
-		} else {
-			sb.WriteString("(set-option :produce-models true)\n")
-		}
-		for k := 0; k < nassume; k++ {
-			a := e.assumptions[k]
-			pr.Define(a)
-			sb.WriteString(pr.Flush())
-			fmt.Fprintf(&sb, "(assert %s)\n", pr.ref(a))
-		}
-		pr.Define(cond)
-		sb.WriteString(pr.Flush())
-		fmt.Fprintf(&sb, "(assert %s)\n", pr.ref(cond))
-		if dd := os.Getenv("GOSMT_DUMPDIR"); dd != "" {
-			mu.Lock()
-			dumpN++
-			os.WriteFile(filepath.Join(dd, fmt.Sprintf("q%03d.smt2", dumpN)), []byte(strings.Replace(sb.String(), "(reset)\n", "", 1)+"(check-sat)\n"), 0o644)
-			mu.Unlock()
-		}
-		var v string
-		var model map[string]string
-		err := s.Exec(sb.String())
-		if err != nil {
-			// solver died (killed, out of memory): restart once and retry
-			s.Kill()
-			w.s, _, _ = start()
-			s = w.s
-			err = s.Exec(sb.String())
-		}
-		if err != nil {
-			v = "error: " + err.Error()
-		} else {
-			v = s.CheckSat(timeout)
-			if v == "sat" {
-				model = e.readModel(s, pr)
-			}
-		}
+	account := func(s *Solver) {
 		mu.Lock()
 		totalT += s.Time
 		totalQ += s.Querys
 		s.Time, s.Querys = 0, 0
 		mu.Unlock()
+	}
+	checkCmd := func() string {
+		if isCVC || spec.NoTactic {
+			return "(check-sat)\n"
+		}
+		return fmt.Sprintf("(check-sat-using (try-for qfaufbv %d))\n", timeout.Milliseconds())
+	}
+	// runIn decides (assumptions[0:nassume] filtered by mode) AND cond in context c.
+	runIn := func(c *sctx, mode int, nassume int, cond *Term, fresh bool, t0 time.Time) (string, map[string]string, bool) {
+		if c.s == nil || c.s.dead || fresh || nassume < c.nAsserted {
+			if c.s != nil {
+				account(c.s)
+				c.s.Kill()
+			}
+			c.s, _, _ = start()
+			c.pr = NewPrinter()
+			c.nAsserted = 0
+		}
+		s := c.s
+		var sb strings.Builder
+		for ; c.nAsserted < nassume; c.nAsserted++ {
+			if mode == 0 && e.isFact[c.nAsserted] {
+				continue
+			}
+			a := e.assumptions[c.nAsserted]
+			c.pr.Define(a)
+			sb.WriteString(c.pr.Flush())
+			fmt.Fprintf(&sb, "(assert %s)\n", c.pr.ref(a))
+		}
+		c.pr.Define(cond)
+		sb.WriteString(c.pr.Flush())
+		fmt.Fprintf(&sb, "(push 1)\n(assert %s)\n", c.pr.ref(cond))
+		if err := s.Exec(sb.String()); err != nil {
+			s.Kill()
+			return "error: " + err.Error(), nil, false
+		}
+		to := timeout
+		if fresh && to > 20*time.Second {
+			to = 20 * time.Second // group queries are an optimisation: give up early, decide individually
+		}
+		cmd := checkCmd()
+		if fresh && !isCVC && !spec.NoTactic {
+			cmd = fmt.Sprintf("(check-sat-using (try-for qfaufbv %d))\n", to.Milliseconds())
+		}
+		v := s.CheckSatCmd(cmd, to)
+		if !isCVC && !spec.NoTactic && (strings.HasPrefix(v, "error") || v == "unknown") && !s.dead && time.Since(t0) < to/2 {
+			// tactic not applicable (e.g. lambda terms): default solver
+			v = s.CheckSatCmd("(check-sat)\n", to)
+		}
+		var model map[string]string
+		if v == "sat" {
+			model = e.readModel(s, c.pr)
+		}
+		if !s.dead {
+			if err := s.Exec("(pop 1)\n"); err != nil {
+				s.Kill()
+			}
+		}
+		if fresh && !s.dead {
+			account(s)
+			s.Kill()
+		}
+		account(s)
+		return v, model, true
+	}
+	// query decides prefix(nassume) AND cond.  fresh=true uses a brand-new
+	// context (group formulas carry their own prefixes).  Otherwise a first
+	// attempt leaves out the facts (already-discharged earlier obligations);
+	// only `unsat` is believed from it, anything else is re-decided with the
+	// full prefix.
+	query := func(nassume int, cond *Term, fresh bool, reach bool) (string, map[string]string, float64) {
+		w := <-pool
+		defer func() { pool <- w }()
+		t0 := time.Now()
+		if !fresh && !spec.NoLightPass {
+			v, _, ok := runIn(&w.c[0], 0, nassume, cond, false, t0)
+			// a vacuity witness only needs the real assumptions to be satisfiable:
+			// facts follow from them once every obligation is discharged
+			if ok && (v == "unsat" || (reach && v == "sat")) {
+				if os.Getenv("GOSMT_VERBOSE") != "" {
+					fmt.Fprintf(os.Stderr, "[query] light nassume=%d nodes=%d verdict=%s t=%.1fs\n", nassume, termSize(cond), v, time.Since(t0).Seconds())
+				}
+				return v, nil, time.Since(t0).Seconds()
+			}
+		}
+		t1 := time.Now()
+		v, model, ok := runIn(&w.c[1], 1, nassume, cond, fresh, t1)
+		if !ok {
+			v, model, _ = runIn(&w.c[1], 1, nassume, cond, fresh, t1) // solver died while loading: one retry
+		}
+		if os.Getenv("GOSMT_VERBOSE") != "" {
+			fmt.Fprintf(os.Stderr, "[query] full nassume=%d nodes=%d verdict=%s t=%.1fs\n", nassume, termSize(cond), v, time.Since(t0).Seconds())
+		}
 		return v, model, time.Since(t0).Seconds()
 	}
 	defer func() {
 		close(pool)
 		for w := range pool {
-			if w.s != nil {
-				w.s.Close()
+			for i := range w.c {
+				if w.c[i].s != nil {
+					w.c[i].s.Close()
+				}
 			}
 		}
 	}()
@@ -309,20 +379,18 @@ func (e *Engine) solve(res *HarnessResult) {
 	}
 	res.Nodes = termSize(append(conds, e.assumptions...)...)
 
-	// 1. group query over the non-assert obligations (panic sites, unwinding
-	// assertions, blocking): OR_i (prefix_i AND cond_i); asserts (and, if the
-	// group is not unsat, everything) are queried individually in parallel.
+	// prefix conjunctions P_k = a_0 AND ... AND a_{k-1}, built without flattening
+	prefix := make([]*Term, len(e.assumptions)+1)
+	prefix[0] = tTrue
+	for k, a := range e.assumptions {
+		prefix[k+1] = rawAnd(prefix[k], a)
+	}
 	groupOf := func(obs []*Obligation) *Term {
 		var group []*Term
-		pre := tTrue
-		k := 0
 		for _, ob := range obs {
-			for ; k < ob.NAssume; k++ {
-				pre = And(pre, e.assumptions[k])
-			}
-			group = append(group, And(pre, ob.Cond))
+			group = append(group, rawAnd(prefix[ob.NAssume], ob.Cond))
 		}
-		return Or(group...)
+		return rawOr(group)
 	}
 	var side, asserts []*Obligation
 	for _, ob := range e.obligations {
@@ -341,31 +409,43 @@ func (e *Engine) solve(res *HarnessResult) {
 		results[i] = ObResult{Label: ob.Label, Kind: ob.Kind, Pos: ob.Pos, Fn: ob.Fn}
 	}
 	var wg sync.WaitGroup
-	single := func(ob *Obligation) {
-		wg.Add(1)
-		go func() {
-			defer wg.Done()
-			v, m, t := query(ob.NAssume, ob.Cond)
-			r := &results[index[ob]]
-			r.Verdict, r.TimeS, r.Model = v, t, m
-		}()
+	var pending []*Obligation
+	var pmu sync.Mutex
+	single := func(ob *Obligation) { // deferred: singles run in assumption order (phase 2)
+		pmu.Lock()
+		pending = append(pending, ob)
+		pmu.Unlock()
 	}
-	groupRun := func(obs []*Obligation, fallbackAll bool) {
-		if len(obs) == 0 {
-			return
-		}
-		if len(obs) == 1 {
-			single(obs[0])
+	// group: one query for OR_i (prefix_i AND cond_i); on anything but unsat,
+	// split in halves (so a single hard or failing obligation is isolated in
+	// O(log n) extra queries) down to individual queries.
+	var groupRun func(obs []*Obligation, depth int)
+	groupRun = func(obs []*Obligation, depth int) {
+		if len(obs) <= 2 {
+			for _, ob := range obs {
+				single(ob)
+			}
 			return
 		}
 		wg.Add(1)
 		go func() {
 			defer wg.Done()
-			v, _, t := query(0, groupOf(obs))
+			v, _, t := query(0, groupOf(obs), true, false)
 			if v == "unsat" {
 				for _, ob := range obs {
 					results[index[ob]].Verdict = "unsat"
 					results[index[ob]].TimeS = t / float64(len(obs))
+				}
+				return
+			}
+			if len(obs) > 64 && depth == 0 {
+				q := (len(obs) + 3) / 4
+				for i := 0; i < len(obs); i += q {
+					j := i + q
+					if j > len(obs) {
+						j = len(obs)
+					}
+					groupRun(obs[i:j], depth+1)
 				}
 				return
 			}
@@ -374,9 +454,9 @@ func (e *Engine) solve(res *HarnessResult) {
 			}
 		}()
 	}
-	groupRun(side, true)
+	groupRun(side, 0)
 	if spec.GroupAsserts {
-		groupRun(asserts, true)
+		groupRun(asserts, 0)
 	} else {
 		for _, ob := range asserts {
 			single(ob)
@@ -386,6 +466,24 @@ func (e *Engine) solve(res *HarnessResult) {
 		if ob.Kind == "reach" {
 			single(ob)
 		}
+	}
+	wg.Wait() // phase 1: group queries (each in a fresh context)
+	sort.SliceStable(pending, func(i, j int) bool { return pending[i].NAssume < pending[j].NAssume })
+	tasks := make(chan *Obligation, len(pending))
+	for _, ob := range pending {
+		tasks <- ob
+	}
+	close(tasks)
+	for i := 0; i < par; i++ {
+		wg.Add(1)
+		go func() {
+			defer wg.Done()
+			for ob := range tasks {
+				v, m, t := query(ob.NAssume, ob.Cond, false, ob.Kind == "reach")
+				r := &results[index[ob]]
+				r.Verdict, r.TimeS, r.Model = v, t, m
+			}
+		}()
 	}
 	wg.Wait()
 	status := "ok"
